@@ -339,6 +339,40 @@ class Recorder:
                  (os, "close"), (os, "replace"), (os, "rename"), (os, "link"), (os, "unlink"), (os, "remove"),
                  (os, "fsync"), (os, "fdatasync")]
         self._orig = [(m, n, getattr(m, n)) for m, n in names if hasattr(m, n)]
+        # every OTHER builtin function of the os module: a call that names a sandbox path (or a
+        # sandbox directory descriptor) is an operation the model lacks — reported, never ignored —
+        # unless it only reads or only changes metadata
+        handled = {n for m, n in names if m is os} | {"getpid"}
+        harmless = {"stat", "lstat", "fstat", "access", "listdir", "scandir", "readlink", "getcwd", "getcwdb", "fspath",
+                    "fsencode", "fsdecode", "read", "pread", "readv", "lseek", "dup", "dup2", "urandom", "strerror",
+                    "pathconf", "statvfs", "getxattr", "listxattr", "chmod", "lchmod", "chown", "lchown", "utime",
+                    "get_inheritable", "set_inheritable", "get_blocking", "set_blocking", "isatty", "cpu_count",
+                    "putenv", "unsetenv", "umask", "times", "kill", "waitpid", "_exit", "register_at_fork", "pipe",
+                    "pipe2", "closerange", "device_encoding", "get_terminal_size", "sched_yield", "getppid",
+                    "fchmod", "fchown", "fstatvfs", "fpathconf"}
+        import types
+        self._generic = []
+        for n in dir(os):
+            v = getattr(os, n)
+            if n in handled or n in harmless or n.startswith("_") or not isinstance(v, types.BuiltinFunctionType):
+                continue
+
+            def make(name, real):
+                def g(*a, **k):
+                    hit = None
+                    for x in list(a) + [k.get("path"), k.get("src"), k.get("dst")]:
+                        if isinstance(x, (str, bytes, os.PathLike)):
+                            dfd = k.get("dir_fd", k.get("dst_dir_fd", k.get("src_dir_fd")))
+                            if rec.inside(rec.at(x, dfd if dfd in rec.dir_fds else None)):
+                                hit = x
+                                break
+                    if hit is not None:
+                        rec.attempt(name)
+                        rec.add(("x", "os." + name), "unknown-os." + name)
+                    return real(*a, **k)
+                return g
+            self._generic.append((n, v))
+            setattr(os, n, make(n, v))
         self._getpid = os.getpid
         if self.pid is not None:
             os.getpid = lambda: rec.pid
@@ -527,6 +561,8 @@ class Recorder:
     def __exit__(self, *exc):
         for m, n, v in self._orig:
             setattr(m, n, v)
+        for n, v in self._generic:
+            setattr(os, n, v)
         os.getpid = self._getpid
         for n, v in self._shutil.items():
             setattr(shutil, n, v)
